@@ -4,7 +4,20 @@ from . import core, legacy_common as L
 PROP = "C09"
 DRIVER = "drv_legacy"
 LEAN_MODULES = ["MesaModel.Props.C09"]
-THEOREMS = []
+THEOREMS = [
+    "Mesa.Legacy.C09_orth_spec",
+    "Mesa.Legacy.C09_orth_defined_iff_in_grid",
+    "Mesa.Legacy.C09_fast_eq_slow",
+    "Mesa.Legacy.C09_cache_transparent",
+    "Mesa.Legacy.C09_hex_cache_transparent",
+    "Mesa.Legacy.C09_hex_spec",
+    "Mesa.Legacy.C09_hex_cells_in_grid",
+    "Mesa.Legacy.C09_hex_tables_are_hexagonal",
+    "Mesa.Legacy.C09_neighbors_spec",
+    "Mesa.Legacy.C09_get_neighbors_exact",
+    "Mesa.Legacy.C09_network_spec",
+    "Mesa.Legacy.C09_network_all_simple_graphs",
+]
 COUNTS = {"quick": 1200, "thorough": 20000}
 TRUSTED = [
     "CPython dict keeps insertion order and ignores re-insertion of a present key (modelled: append-if-absent list)",
